@@ -825,7 +825,9 @@ func (e *Engine) conv(fr *frame, tDst, tSrc types.Type, x Value) Value {
 				return x
 			case *sym.Term:
 				if !x.IsConst() {
-					return Opaque{"float of symbolic integer"}
+					// few feasible values (e.g. an ite of constants): fork over them
+					v := e.Concretize(x, 64, "integer converted to float at "+e.where(fr))
+					x = e.T.Const(x.W, uint64(v))
 				}
 				_, ssigned := intWidth(utSrc)
 				var f float64
